@@ -28,6 +28,13 @@ LEAF_SA = {"b": (1, 1), "i": (4, 4), "l": (8, 8), "f": (4, 4), "d": (8, 8), "c":
            "s": (8, 8), "p": (8, 8)}
 STR_ALPHABET = "ABCDEFGHIJKLMNOPQRSTUVWXYZabcdefghijklmnopqrstuvwxyz0123456789_ "
 NOBJS = 8
+# where the target extern, the records and the caller stand in the generated program.  The grammar wants records before
+# functions; among functions (externs included) any order is legal: "functions may call functions defined further down"
+LAYOUTS = ["default", "records-outer-first", "extern-after-callers", "extern-between-callers", "nested-caller",
+           "nested-caller+extern-after", "helper-caller+extern-after", "helper-caller+extern-between"]
+MODEL_IMAGE_MAX_LEAVES = 2000     # the extracted marshal image (memory = functional map) is quadratic: huge records are
+                                  # tied through the layout query (every leaf offset vs gcc) and the call transcripts only
+HUGE_TARGETS = {"quick": [66000, 132000], "thorough": [66000, 70000, 132000, 140000, 200000]}   # bytes, at least
 MANY_ARGS_MAX = {"quick": 20, "thorough": 24}      # largest arity of the many-args family
 
 
@@ -42,6 +49,17 @@ def rec(*fields):
 def tstr(t):
     """type syntax of the OCaml model driver"""
     return t if not is_rec(t) else "{" + "".join(tstr(f) for f in t[1]) + "}"
+
+
+def nleaves(t):
+    return 1 if not is_rec(t) else sum(nleaves(f) for f in t[1])
+
+
+def tshort(t):
+    """tstr, with huge records abbreviated (signatures in messages)"""
+    if is_rec(t) and nleaves(t) > 64:
+        return "{record of %d leaves, %d bytes}" % (nleaves(t), py_layout(t)[0])
+    return tstr(t)
 
 
 def parse_tstr(s):
@@ -142,9 +160,9 @@ class Names:
     def c_type(self, t):
         return self.map[t] if is_rec(t) else C_T[t]
 
-    def never_decls(self):
+    def never_decls(self, outer_first=False):
         out = []
-        for r in self.order:
+        for r in (reversed(self.order) if outer_first else self.order):
             fs = " ".join("f%d : %s;" % (i, self.never_type(f)) for i, f in enumerate(r[1]))
             out.append("record %s { %s }" % (self.map[r], fs))
         return "\n".join(out)
@@ -359,7 +377,8 @@ PR = {"b": "pr_b", "i": "pr_i", "l": "pr_l", "f": "pr_f", "d": "pr_d", "c": "pr_
 class Case:
     """one signature + one call"""
 
-    def __init__(self, cid, family, params, ret, args, retval, expect="call", libmode="ok", note=""):
+    def __init__(self, cid, family, params, ret, args, retval, expect="call", libmode="ok", note="",
+                 layout="default", ret_check=None, twin=None):
         self.cid = cid              # unique id, valid C identifier suffix
         self.family = family        # generator family (statistics)
         self.params = list(params)  # parameter types
@@ -369,6 +388,9 @@ class Case:
         self.expect = expect        # "call" | "ffi_fail"
         self.libmode = libmode      # "ok" | "missing-lib" | "missing-symbol"
         self.note = note
+        self.layout = layout        # where the extern / the records / the caller stand in the program (LAYOUTS)
+        self.ret_check = ret_check  # None: every leaf of the result is read back; else the flat leaf indices that are
+        self.twin = twin            # cid of the same case in the default layout (declaration-order family)
         self.fname = "fn_" + cid
         self.names = Names("R" + cid)
         for t in self.params:
@@ -378,18 +400,20 @@ class Case:
 
     # -- descriptions ---------------------------------------------------------------------
     def sig(self):
-        return "(%s)->%s" % (",".join(tstr(t) for t in self.params), tstr(self.ret) if self.ret else "v")
+        return "(%s)->%s" % (",".join(tshort(t) for t in self.params), tshort(self.ret) if self.ret else "v")
 
     def to_json(self):
         return {"cid": self.cid, "family": self.family, "params": [tstr(t) for t in self.params],
                 "ret": tstr(self.ret) if self.ret else None, "args": self.args, "retval": self.retval,
-                "expect": self.expect, "libmode": self.libmode, "note": self.note}
+                "expect": self.expect, "libmode": self.libmode, "note": self.note, "layout": self.layout,
+                "ret_check": self.ret_check}
 
     @staticmethod
     def from_json(j, cid=None):
         return Case(cid or j["cid"], j.get("family", "corpus"), [parse_tstr(s) for s in j["params"]],
                     parse_tstr(j["ret"]) if j.get("ret") else None, j["args"], j.get("retval"),
-                    j.get("expect", "call"), j.get("libmode", "ok"), j.get("note", ""))
+                    j.get("expect", "call"), j.get("libmode", "ok"), j.get("note", ""), j.get("layout", "default"),
+                    j.get("ret_check"))
 
     # -- C callee ----------------------------------------------------------------------------
     def c_source(self):
@@ -437,16 +461,26 @@ class Case:
             sym = self.fname + "_absent"
         ps = ", ".join("a%d : %s" % (i, n.never_type(t)) for i, t in enumerate(self.params))
         rt = n.never_type(self.ret) if self.ret else "void"
-        lines = []
-        if n.order:
-            lines.append(n.never_decls())
-        lines.append('extern "%s" func %s(%s) -> %s' % (lib, sym, ps, rt))
-        lines.append('extern "%s" func cptr(k : int) -> c_ptr' % libpath)
-        lines.append('extern "%s" func sinkf(v : float) -> int' % libpath)
-        lines.append('extern "%s" func sinkd(v : double) -> int' % libpath)
-        lines.append('extern "%s" func sinkp(v : c_ptr) -> int' % libpath)
+        lay = self.layout
+        assert lay in LAYOUTS, lay
+        recs = [n.never_decls(outer_first=(lay == "records-outer-first"))] if n.order else []
+        target = ['extern "%s" func %s(%s) -> %s' % (lib, sym, ps, rt)]
+        helpers = ['extern "%s" func cptr(k : int) -> c_ptr' % libpath,
+                   'extern "%s" func sinkf(v : float) -> int' % libpath,
+                   'extern "%s" func sinkd(v : double) -> int' % libpath,
+                   'extern "%s" func sinkp(v : c_ptr) -> int' % libpath]
         call = "%s(%s)" % (sym, ", ".join(never_lit(n, t, v) for t, v in zip(self.params, self.args)))
         body = ["    var nils = {[ 1 ]} : string;"]
+        helper_fn = []
+        # who makes the call: call() itself, a function nested in it, or another top-level function
+        inner_rt = rt if self.ret is not None else "int"
+        inner_body = call if self.ret is not None else "%s; 0" % call
+        if lay.startswith("nested-caller"):
+            body.append("    func inner() -> %s { func deeper() -> %s { %s }; deeper() };" % (inner_rt, inner_rt, inner_body))
+            call = "inner()"
+        elif lay.startswith("helper-caller"):
+            helper_fn = ["func helper_%s() -> %s\n{\n    var nils = {[ 1 ]} : string;\n    %s\n}" % (self.cid, inner_rt, inner_body)]
+            call = "helper_%s()" % self.cid
         if self.ret is None:
             body.append("    %s;" % call)
         else:
@@ -455,6 +489,8 @@ class Case:
                 exp = flat_values(self.ret, self.retval)
                 paths = leaf_paths(self.ret, "r") if is_rec(self.ret) else [("r", self.ret)]
                 for j, ((path, k), (_, v)) in enumerate(zip(paths, exp)):
+                    if self.ret_check is not None and j not in self._ret_check_set():
+                        continue
                     tag = 'prints("@R %d ");' % j
                     if k == "i":
                         body.append("    %s print(%s);" % (tag, path))
@@ -476,9 +512,31 @@ class Case:
                         body.append('    %s prints("\\n"); sinkp(%s);' % (tag, path))
         body.append('    prints("@DONE\\n");')
         body.append("    0")
-        lines.append("func call() -> int\n{\n%s\n}\ncatch (ffi_fail)\n{\n    prints(\"@FFI_FAIL\\n\");\n    0\n}" % "\n".join(body))
-        lines.append("func main() -> int { call() }")
+        callfn = ["func call() -> int\n{\n%s\n}\ncatch (ffi_fail)\n{\n    prints(\"@FFI_FAIL\\n\");\n    0\n}" % "\n".join(body)]
+        mainfn = ["func main() -> int { call() }"]
+        if lay in ("default", "records-outer-first", "nested-caller"):
+            lines = recs + target + helpers + callfn + mainfn
+        elif lay in ("extern-after-callers", "nested-caller+extern-after"):
+            lines = recs + helpers + callfn + mainfn + target
+        elif lay == "extern-between-callers":
+            lines = recs + helpers + callfn + target + mainfn
+        elif lay == "helper-caller+extern-after":
+            lines = recs + helpers + helper_fn + callfn + target + mainfn
+        elif lay == "helper-caller+extern-between":
+            lines = recs + helpers + helper_fn + target + callfn + mainfn
+        else:
+            raise ValueError(lay)
         return "\n".join(lines) + "\n"
+
+    def _ret_check_set(self):
+        if not hasattr(self, "_rcs"):
+            self._rcs = set(self.ret_check)
+        return self._rcs
+
+    def header_options(self):
+        """options of the nevrun batch header: huge records need a larger VM heap"""
+        nl = sum(nleaves(t) for t in self.params) + (nleaves(self.ret) if self.ret is not None else 0)
+        return " mem=%d stack=2000" % (40 * nl + 20000) if nl > 1000 else ""
 
     # -- the transcript required by the property ---------------------------------------------
     def expected(self):
@@ -495,6 +553,8 @@ class Case:
         out.append("@E")
         if self.ret is not None:
             for j, (k, v) in enumerate(flat_values(self.ret, self.retval)):
+                if self.ret_check is not None and j not in self._ret_check_set():
+                    continue
                 if k in "il":
                     out.append("@R %d %d" % (j, v))
                 elif k == "b":
@@ -519,7 +579,7 @@ class Case:
         for r in self.names.order:
             q.append(("L", "L " + tstr(r)))
         for i, (t, v) in enumerate(zip(self.params, self.args)):
-            if is_rec(t) and v is not None:
+            if is_rec(t) and v is not None and nleaves(t) <= MODEL_IMAGE_MAX_LEAVES:
                 q.append(("M%d" % i, "M %s %s" % (tstr(t), mval(t, v))))
         return q
 
@@ -628,10 +688,14 @@ def sig_class(case):
         return case.family
     recs = [t for t in case.params if is_rec(t)]
     big = [t for t in recs if py_layout(t)[0] > 16]
+    if any(py_layout(t)[0] >= 65536 for t in big):
+        return "struct-by-value>=64KiB"
     if big:
         return "struct-by-value>16B"
     if recs:
         return sorted(struct_class(t) for t in recs)[-1] + "-arg"
+    if case.ret is not None and is_rec(case.ret) and py_layout(case.ret)[0] >= 65536:
+        return "ret-struct>=64KiB"
     if case.ret is not None and is_rec(case.ret):
         return "ret-" + struct_class(case.ret)
     pas, _, _ = passing(case.params, case.ret)
@@ -668,6 +732,37 @@ def record_of_size(rng, target, tries=400):
         if py_layout(t)[0] == target:
             return t
     return rec(*["c"] * target)
+
+
+def huge_record(rng, target):
+    """a record tree of at least `target` bytes: level 0 = 4..8 leaves, every further level = 2..8 copies of the level
+    below with a scalar in front of / between / behind them now and then (so that the rounding to the next member's
+    alignment does real work at large offsets too)"""
+    t = rec(*[rand_leaf(rng, "llddllddifcbi") for _ in range(rng.randrange(4, 9))])
+    if rng.random() < 0.3:
+        t = rec(*(list(t[1]) + [rng.choice("sp")]))
+    while py_layout(t)[0] < target:
+        size = py_layout(t)[0]
+        k = max(2, min(rng.randrange(3, 9), -(-int(target * 1.25) // size)))
+        fs = [t] * k
+        if rng.random() < 0.7:
+            fs.insert(rng.randrange(0, k + 1), rng.choice("cicdf"))
+        t = rec(*fs)
+    return t
+
+
+def boundary_leaves(rng, t, extra=60):
+    """flat indices of the leaves of t worth reading back one by one: around every multiple of 64 KiB, the first and
+    the last ones, and some drawn at random (generator steering: the VALUES compared are the generated ones)"""
+    flat = py_layout(t)[2]
+    pick = set(range(min(4, len(flat)))) | set(range(max(0, len(flat) - 4), len(flat)))
+    for j, (o, k) in enumerate(flat):
+        m = (o + 32768) // 65536 * 65536
+        if m > 0 and o + LEAF_SA[k][0] > m - 48 and o < m + 48:
+            pick.add(j)
+    for _ in range(extra):
+        pick.add(rng.randrange(len(flat)))
+    return sorted(pick)
 
 
 # ------------------------------------------------------------------------------------------
@@ -836,6 +931,40 @@ def generate(rng, tier):
             cases.append(_mk(cid(), "many-args", rng, params, rand_ret(rng, p_rec=0.15), note="several big records"))
             params = [rand_leaf(rng) for _ in range(ar)]
             cases.append(_mk(cid(), "many-args", rng, params, rand_ret(rng, p_rec=0.3), note="scalars only"))
+    # 10. declaration order: the same call with the extern declared before / after / between its callers, the records
+    #     outer-first, the call made by call() itself, by a function nested two levels deep, by another top-level
+    #     function.  Every shape once per layout, with its twin in the default layout (a program that is rejected
+    #     while its twin runs exactly is a failure of the property, not of the generator)
+    shapes = [
+        lambda: ([rand_record(rng, 4, 2, p_nest=0.5)], rand_leaf(rng)),                        # record parameter
+        lambda: ([rand_leaf(rng) for _ in range(rng.randrange(0, 3))], rand_record(rng, 4, 2, p_nest=0.5)),   # record result
+        lambda: ([rand_record(rng, 3, 1), rand_leaf(rng), rand_record(rng, 3, 2, p_nest=0.6)], rand_record(rng, 3, 1)),
+        lambda: ([rand_leaf(rng), record_of_size(rng, rng.randrange(17, 41)), rand_leaf(rng)], rand_leaf(rng)),
+        lambda: ([rec("i", rec("d", rec("c", "l")))], rec(rec("f", "f"), "i")),                  # nesting depth 3
+        lambda: ([rand_leaf(rng) for _ in range(rng.randrange(1, 6))], rand_ret(rng)),           # scalars only
+        lambda: (["s", "p", rec("s", "i")], "s"),
+    ]
+    for mk in shapes:
+        for rep in range(scale):
+            params, ret = mk()
+            twin = _mk(cid(), "decl-order", rng, params, ret, note="default")
+            cases.append(twin)
+            for lay in LAYOUTS[1:]:
+                c = Case(cid(), "decl-order", params, ret, twin.args, twin.retval, note=lay, layout=lay, twin=twin.cid)
+                cases.append(c)
+    # 11. huge records: layouts that cross 64 KiB and 128 KiB, by value in both directions (the layout theorem is
+    #     unbounded; the tie must not stop at 40 bytes).  Every member of an argument is printed by the callee; of a
+    #     result the members around every multiple of 64 KiB, the first / last ones and a random sample are read back
+    for target in HUGE_TARGETS[tier]:
+        t = huge_record(rng, target)
+        note = "huge record: %d leaves, %d bytes" % (nleaves(t), py_layout(t)[0])
+        cases.append(_mk(cid(), "huge-record", rng, [t], rng.choice("il"), note=note + ", argument"))
+        c = _mk(cid(), "huge-record", rng, [rand_leaf(rng, "ildf") for _ in range(rng.randrange(0, 3))], t, note=note + ", result")
+        c.ret_check = boundary_leaves(rng, t)
+        cases.append(c)
+        if target == HUGE_TARGETS[tier][0]:
+            cases.append(_mk(cid(), "huge-record", rng, [rng.choice("il"), t, rng.choice("df")], rng.choice("il"),
+                             note=note + ", argument among scalars"))
     # 8. inside ONE record argument: every position of a nil string field / nil nested record
     #    relative to non-nil nested records (before, after, between), at every depth <= 3
     for k, (t, v, where) in enumerate(nil_in_record_cases()):
